@@ -434,7 +434,7 @@ pub fn check(tier: Tier) -> i32 {
     );
 
     // Tier C: conservativeness of directory pruning
-    drive(&ctx, "pruning", tier.pick(150_000, 3_000_000), prune_strategy, run_prune);
+    drive(&ctx, "pruning", tier.pick(400_000, 4_000_000), prune_strategy, run_prune);
 
     ctx.finish(
         "exploration",
